@@ -359,7 +359,7 @@ func (in *Interp) prepCall(fr *frame, c *ssa.CallCommon) ([]Value, Value) {
 			}
 			return args, &nativeMethod{name: c.Method.Name()}
 		}
-		m := in.prog.LookupMethod(recv.typ, c.Method.Pkg(), c.Method.Name())
+		m := in.lookupMethod(recv.typ, c.Method.Pkg(), c.Method.Name())
 		if m == nil {
 			unsupported("method %s not found on %s", c.Method.Name(), recv.typ)
 		}
@@ -1618,4 +1618,13 @@ func decodeRune(bs []byte) (rune, int) {
 		size = len(string(r))
 	}
 	return r, size
+}
+
+// lookupMethod returns the method of dynamic type typ, or nil when it has none of that name.
+func (in *Interp) lookupMethod(typ types.Type, pkg *types.Package, name string) *ssa.Function {
+	sel := in.prog.MethodSets.MethodSet(typ).Lookup(pkg, name)
+	if sel == nil {
+		return nil
+	}
+	return in.prog.MethodValue(sel)
 }
